@@ -219,7 +219,16 @@ def r12c(run):
     for c in dec:
         total += 1
         e = kwarg(c, "errors")
-        ok = isinstance(e, ast.IfExp) and "no_data_loss" in unparse(e.test) and isinstance(e.body, ast.Constant) \
+        test_txt = ""
+        if isinstance(e, ast.IfExp):
+            test_txt = unparse(e.test)
+            fa_ = analysis(f)
+            for nm in names_in(e.test):
+                if nm in fa_.rd.locals:
+                    for n_ in fa_.cfg.nodes:
+                        if n_.kind == "stmt" and isinstance(n_.ast, ast.Assign) and unparse(n_.ast.targets[0]) == nm:
+                            test_txt += " " + unparse(n_.ast.value)
+        ok = isinstance(e, ast.IfExp) and "no_data_loss" in test_txt and isinstance(e.body, ast.Constant) \
             and e.body.value == "strict"
         run.check("R12c", f, "bytes decode strictly under no_data_loss", ok, construct="ungated lossy step: lenient decode",
                   message=f"_from_byte_like: `{unparse(c)}` does not select errors='strict' under no_data_loss",
